@@ -182,12 +182,49 @@ package snaps
 //@   ensures [wf] err == nil ==> wf(F2)
 //@   ensures [iso] err == nil && testID != "---" && wf(F) ==> (forall id2 Str: id2 != testID && id2 != "" && id2 != "---" && lacks(snapshot, id2) ==> found(F2, id2) == found(F, id2) && (found(F, id2) ==> body(F2, id2) == body(F, id2)))
 //@
+//@ func removeSnapshot(s)
+//@   mode lines
+//@   requires s != nil && scunb[s] && 0 <= scpos[s] && scpos[s] <= ntok(scsrc[s])
+//@   let F = scsrc[s]
+//@   assigns scpos[s]
+//@   ensures old(scpos[s]) <= scpos[s] && scpos[s] <= ntok(F)
+//@   ensures (scpos[s] > old(scpos[s]) && tok(F, scpos[s] - 1) == "---" && (forall k in old(scpos[s])..scpos[s] - 1: tok(F, k) != "---"))
+//@        || (scpos[s] == ntok(F) && (forall k in old(scpos[s])..ntok(F): tok(F, k) != "---"))
+//@   loop 1 invariant old(scpos[s]) <= scpos[s] && scpos[s] <= ntok(F) && (forall k in old(scpos[s])..scpos[s]: tok(F, k) != "---")
+//@   loop 1 invariant forall r Ref: r != s ==> scpos[r] == old(scpos)[r]
+//@
+//@ func overwriteFile(f, b) returns (err)
+//@   mode lines
+//@   requires f != nil
+//@   requires quiescent || fsguard[fpath[f]] == nil || held[fsguard[fpath[f]]] == 2
+//@   assigns fsc[fpath[f]], foff[f], fswrites
+//@   ensures err == nil ==> fsc[fpath[f]] == b
+//@   ensures fswrites > old(fswrites)
+//@
 //@ func updateSnapshot(testID, snapshot, snapPath) returns (err)
 //@   mode lines
-//@   requires held[_m] == 0
+//@   dead ret2
+//@   requires held[_m] == 0 && fsguard[snapPath] == _m && !quiescent
+//@   requires isLine(testID) && testID != "" && testID != "---"
+//@   let F = old(fsc[snapPath])
+//@   let F2 = fsc[snapPath]
+//@   let p = hdrPos(F, testID)
+//@   let q = endPos(F, testID)
+//@   let d = p + nl(snapshot) + 1 - q
+//@   let B = wbuf[updatedSnapFile]
 //@   assigns fsc[snapPath], fswrites, alloc
 //@   ensures [lock] held[_m] == 0
 //@   ensures [exists] fsx[snapPath] == old(fsx[snapPath])
+//@   ensures [content] err == nil && found(F, testID) && uniqueHdr(F, testID) ==> updShape(F, testID, snapshot, F2)
+//@   ensures [own] err == nil && found(F, testID) && uniqueHdr(F, testID) && noEND(snapshot) ==> found(F2, testID) && body(F2, testID) == snapshot
+//@   ensures [wf] err == nil && found(F, testID) && uniqueHdr(F, testID) && wf(F) ==> wf(F2)
+//@   ensures [other] err == nil && found(F, testID) && uniqueHdr(F, testID) && wf(F) ==> (forall id2 Str: id2 != testID && id2 != "---" && lacks(snapshot, id2) && lacks(body(F, testID), id2) ==> found(F2, id2) == found(F, id2) && (found(F, id2) && apart(F, testID, id2) ==> body(F2, id2) == body(F, id2)))
+//@   loop 1 invariant scsrc[s] == F && scunb[s] && s != nil && f != nil && fpath[f] == snapPath && held[_m] == 2 && fsc[snapPath] == F && fsx[snapPath] && updatedSnapFile != nil && !old(alloc)[updatedSnapFile] && !old(alloc)[s] && !old(alloc)[f] && s != f && f != updatedSnapFile && s != updatedSnapFile
+//@   loop 1 invariant 0 <= scpos[s] && scpos[s] <= ntok(F) && seg(B, nl(B) - 1) == ""
+//@   loop 1 invariant forall r Ref: old(alloc)[r] ==> scpos[r] == old(scpos)[r] && wbuf[r] == old(wbuf)[r]
+//@   loop 1 invariant found(F, testID) && uniqueHdr(F, testID) ==>
+//@         (scpos[s] <= p && nl(B) == scpos[s] + 1 && (forall w in 0..scpos[s]: seg(B, w) == tok(F, w)))
+//@      || (scpos[s] > q && nl(B) == scpos[s] + d + 1 && (forall w in 0..scpos[s] + d: seg(B, w) == updTarget(F, testID, snapshot, w)))
 
 // ---- Config construction (C12) ----------------------------------------------------------------
 // An option may only write the fields of the Config it is applied to (assumption about user-defined options;
@@ -363,6 +400,7 @@ package snaps
 //@   let F = old(fsc[sp])
 //@   let hit = old(fsx[sp]) && found(old(fsc[sp]), id)
 //@   let stored = body(F, id)
+//@   let Fx = old(fsx[sp]) ? old(fsc[sp]) : ""
 //@   let ordinalTaken = testsRegistry.running[sp][tname(t)] == k && testsRegistry.cleanup[sp][tname(t)] == old(testsRegistry.cleanup[sp][tname(t)]) + 1
 //@   let snap = takeSnapshot(values)
 //@   assigns nErr[t], lastErr[t], nLog[t], lastLog[t], nCleanup[t], lastCleanup[t]
@@ -383,6 +421,10 @@ package snaps
 //@   ensures [created] len(values) > 0 && dAdd == 1 ==> true && !hit && mayCreate && fsx[sp] && fsc[sp] == (old(fsx[sp]) ? F : "") + "\n" + id + "\n" + snap + "\n---\n"
 //@   ensures [updated] len(values) > 0 && dUpd == 1 ==> true && hit && mayUpdate && stored != snap
 //@   ensures [equal_nowrite] len(values) > 0 && true && hit && stored == snap ==> nowrite
+//@   ensures [created_lookup] len(values) > 0 && dAdd == 1 && wf(Fx) && noEND(snap) ==> found(fsc[sp], id) && body(fsc[sp], id) == snap && wf(fsc[sp])
+//@   ensures [created_others] len(values) > 0 && dAdd == 1 && wf(Fx) ==> (forall id2 Str: id2 != id && id2 != "" && id2 != "---" && lacks(snap, id2) ==> found(fsc[sp], id2) == found(Fx, id2) && (found(Fx, id2) ==> body(fsc[sp], id2) == body(Fx, id2)))
+//@   ensures [updated_lookup] len(values) > 0 && dUpd == 1 && uniqueHdr(F, id) && noEND(snap) ==> updShape(F, id, snap, fsc[sp]) && found(fsc[sp], id) && body(fsc[sp], id) == snap && (wf(F) ==> wf(fsc[sp]))
+//@   ensures [updated_others] len(values) > 0 && dUpd == 1 && uniqueHdr(F, id) && wf(F) ==> (forall id2 Str: id2 != id && id2 != "---" && lacks(snap, id2) && lacks(stored, id2) ==> found(fsc[sp], id2) == found(F, id2) && (found(F, id2) && apart(F, id, id2) ==> body(fsc[sp], id2) == body(F, id2)))
 //@   ensures [locks] held[_m] == 0 && held[testsRegistry.Mutex] == 0 && held[testEvents.Mutex] == 0
 //@   ensures [config_immutable] (forall r Ref: old(alloc)[r] ==> heap(Config.filename)[r] == old(heap(Config.filename))[r] && heap(Config.snapsDir)[r] == old(heap(Config.snapsDir))[r] && heap(Config.extension)[r] == old(heap(Config.extension))[r] && heap(Config.update)[r] == old(heap(Config.update))[r] && heap(Config.json)[r] == old(heap(Config.json))[r])
 //@   ensures [config_pointees] (c.update != nil ==> *c.update == old(*c.update)) && (c.json != nil ==> c.json.Width == old(c.json.Width) && c.json.Indent == old(c.json.Indent) && c.json.SortKeys == old(c.json.SortKeys))
@@ -425,6 +467,7 @@ package snaps
 //@   let F = old(fsc[sp])
 //@   let hit = old(fsx[sp]) && found(old(fsc[sp]), id)
 //@   let stored = body(F, id)
+//@   let Fx = old(fsx[sp]) ? old(fsc[sp]) : ""
 //@   let ordinalTaken = testsRegistry.running[sp][tname(t)] == k && testsRegistry.cleanup[sp][tname(t)] == old(testsRegistry.cleanup[sp][tname(t)]) + 1
 //@   let valid = vjErrOf(input) == nil
 //@   let doc = applyJ(vjBytesOf(input), arr(matchers), len(matchers))
@@ -450,6 +493,10 @@ package snaps
 //@   ensures [created] true && dAdd == 1 ==> okIn && !hit && mayCreate && fsx[sp] && fsc[sp] == (old(fsx[sp]) ? F : "") + "\n" + id + "\n" + snap + "\n---\n"
 //@   ensures [updated] true && dUpd == 1 ==> okIn && hit && mayUpdate && stored != snap
 //@   ensures [equal_nowrite] true && okIn && hit && stored == snap ==> nowrite
+//@   ensures [created_lookup] true && dAdd == 1 && wf(Fx) && noEND(snap) ==> found(fsc[sp], id) && body(fsc[sp], id) == snap && wf(fsc[sp])
+//@   ensures [created_others] true && dAdd == 1 && wf(Fx) ==> (forall id2 Str: id2 != id && id2 != "" && id2 != "---" && lacks(snap, id2) ==> found(fsc[sp], id2) == found(Fx, id2) && (found(Fx, id2) ==> body(fsc[sp], id2) == body(Fx, id2)))
+//@   ensures [updated_lookup] true && dUpd == 1 && uniqueHdr(F, id) && noEND(snap) ==> updShape(F, id, snap, fsc[sp]) && found(fsc[sp], id) && body(fsc[sp], id) == snap && (wf(F) ==> wf(fsc[sp]))
+//@   ensures [updated_others] true && dUpd == 1 && uniqueHdr(F, id) && wf(F) ==> (forall id2 Str: id2 != id && id2 != "---" && lacks(snap, id2) && lacks(stored, id2) ==> found(fsc[sp], id2) == found(F, id2) && (found(F, id2) && apart(F, id, id2) ==> body(fsc[sp], id2) == body(F, id2)))
 //@   ensures [locks] held[_m] == 0 && held[testsRegistry.Mutex] == 0 && held[testEvents.Mutex] == 0
 //@   ensures [config_immutable] (forall r Ref: old(alloc)[r] ==> heap(Config.filename)[r] == old(heap(Config.filename))[r] && heap(Config.snapsDir)[r] == old(heap(Config.snapsDir))[r] && heap(Config.extension)[r] == old(heap(Config.extension))[r] && heap(Config.update)[r] == old(heap(Config.update))[r] && heap(Config.json)[r] == old(heap(Config.json))[r])
 //@   ensures [config_pointees] (c.update != nil ==> *c.update == old(*c.update)) && (c.json != nil ==> c.json.Width == old(c.json.Width) && c.json.Indent == old(c.json.Indent) && c.json.SortKeys == old(c.json.SortKeys))
@@ -492,6 +539,7 @@ package snaps
 //@   let F = old(fsc[sp])
 //@   let hit = old(fsx[sp]) && found(old(fsc[sp]), id)
 //@   let stored = body(F, id)
+//@   let Fx = old(fsx[sp]) ? old(fsc[sp]) : ""
 //@   let ordinalTaken = testsRegistry.running[sp][tname(t)] == k && testsRegistry.cleanup[sp][tname(t)] == old(testsRegistry.cleanup[sp][tname(t)]) + 1
 //@   let valid = vyOK(input)
 //@   let doc = applyY(vyBytesOf(input), arr(matchers), len(matchers))
@@ -517,6 +565,10 @@ package snaps
 //@   ensures [created] true && dAdd == 1 ==> okIn && !hit && mayCreate && fsx[sp] && fsc[sp] == (old(fsx[sp]) ? F : "") + "\n" + id + "\n" + snap + "\n---\n"
 //@   ensures [updated] true && dUpd == 1 ==> okIn && hit && mayUpdate && stored != snap
 //@   ensures [equal_nowrite] true && okIn && hit && stored == snap ==> nowrite
+//@   ensures [created_lookup] true && dAdd == 1 && wf(Fx) && noEND(snap) ==> found(fsc[sp], id) && body(fsc[sp], id) == snap && wf(fsc[sp])
+//@   ensures [created_others] true && dAdd == 1 && wf(Fx) ==> (forall id2 Str: id2 != id && id2 != "" && id2 != "---" && lacks(snap, id2) ==> found(fsc[sp], id2) == found(Fx, id2) && (found(Fx, id2) ==> body(fsc[sp], id2) == body(Fx, id2)))
+//@   ensures [updated_lookup] true && dUpd == 1 && uniqueHdr(F, id) && noEND(snap) ==> updShape(F, id, snap, fsc[sp]) && found(fsc[sp], id) && body(fsc[sp], id) == snap && (wf(F) ==> wf(fsc[sp]))
+//@   ensures [updated_others] true && dUpd == 1 && uniqueHdr(F, id) && wf(F) ==> (forall id2 Str: id2 != id && id2 != "---" && lacks(snap, id2) && lacks(stored, id2) ==> found(fsc[sp], id2) == found(F, id2) && (found(F, id2) && apart(F, id, id2) ==> body(fsc[sp], id2) == body(F, id2)))
 //@   ensures [locks] held[_m] == 0 && held[testsRegistry.Mutex] == 0 && held[testEvents.Mutex] == 0
 //@   ensures [config_immutable] (forall r Ref: old(alloc)[r] ==> heap(Config.filename)[r] == old(heap(Config.filename))[r] && heap(Config.snapsDir)[r] == old(heap(Config.snapsDir))[r] && heap(Config.extension)[r] == old(heap(Config.extension))[r] && heap(Config.update)[r] == old(heap(Config.update))[r] && heap(Config.json)[r] == old(heap(Config.json))[r])
 //@   ensures [config_pointees] (c.update != nil ==> *c.update == old(*c.update)) && (c.json != nil ==> c.json.Width == old(c.json.Width) && c.json.Indent == old(c.json.Indent) && c.json.SortKeys == old(c.json.SortKeys))
@@ -668,6 +720,7 @@ package snaps
 //@   let F = old(fsc[sp])
 //@   let hit = old(fsx[sp]) && found(old(fsc[sp]), id)
 //@   let stored = body(F, id)
+//@   let Fx = old(fsx[sp]) ? old(fsc[sp]) : ""
 //@   let ordinalTaken = testsRegistry.running[sp][tname(t)] == k && testsRegistry.cleanup[sp][tname(t)] == old(testsRegistry.cleanup[sp][tname(t)]) + 1
 //@   let snap = takeSnapshot(values)
 //@   assigns nErr[t], lastErr[t], nLog[t], lastLog[t], nCleanup[t], lastCleanup[t]
@@ -688,6 +741,10 @@ package snaps
 //@   ensures [created] len(values) > 0 && dAdd == 1 ==> true && !hit && mayCreate && fsx[sp] && fsc[sp] == (old(fsx[sp]) ? F : "") + "\n" + id + "\n" + snap + "\n---\n"
 //@   ensures [updated] len(values) > 0 && dUpd == 1 ==> true && hit && mayUpdate && stored != snap
 //@   ensures [equal_nowrite] len(values) > 0 && true && hit && stored == snap ==> nowrite
+//@   ensures [created_lookup] len(values) > 0 && dAdd == 1 && wf(Fx) && noEND(snap) ==> found(fsc[sp], id) && body(fsc[sp], id) == snap && wf(fsc[sp])
+//@   ensures [created_others] len(values) > 0 && dAdd == 1 && wf(Fx) ==> (forall id2 Str: id2 != id && id2 != "" && id2 != "---" && lacks(snap, id2) ==> found(fsc[sp], id2) == found(Fx, id2) && (found(Fx, id2) ==> body(fsc[sp], id2) == body(Fx, id2)))
+//@   ensures [updated_lookup] len(values) > 0 && dUpd == 1 && uniqueHdr(F, id) && noEND(snap) ==> updShape(F, id, snap, fsc[sp]) && found(fsc[sp], id) && body(fsc[sp], id) == snap && (wf(F) ==> wf(fsc[sp]))
+//@   ensures [updated_others] len(values) > 0 && dUpd == 1 && uniqueHdr(F, id) && wf(F) ==> (forall id2 Str: id2 != id && id2 != "---" && lacks(snap, id2) && lacks(stored, id2) ==> found(fsc[sp], id2) == found(F, id2) && (found(F, id2) && apart(F, id, id2) ==> body(fsc[sp], id2) == body(F, id2)))
 //@   ensures [locks] held[_m] == 0 && held[testsRegistry.Mutex] == 0 && held[testEvents.Mutex] == 0
 //@   ensures [config_immutable] (forall r Ref: old(alloc)[r] ==> heap(Config.filename)[r] == old(heap(Config.filename))[r] && heap(Config.snapsDir)[r] == old(heap(Config.snapsDir))[r] && heap(Config.extension)[r] == old(heap(Config.extension))[r] && heap(Config.update)[r] == old(heap(Config.update))[r] && heap(Config.json)[r] == old(heap(Config.json))[r])
 //@   ensures [config_pointees] (c.update != nil ==> *c.update == old(*c.update)) && (c.json != nil ==> c.json.Width == old(c.json.Width) && c.json.Indent == old(c.json.Indent) && c.json.SortKeys == old(c.json.SortKeys))
@@ -720,6 +777,7 @@ package snaps
 //@   let F = old(fsc[sp])
 //@   let hit = old(fsx[sp]) && found(old(fsc[sp]), id)
 //@   let stored = body(F, id)
+//@   let Fx = old(fsx[sp]) ? old(fsc[sp]) : ""
 //@   let ordinalTaken = testsRegistry.running[sp][tname(t)] == k && testsRegistry.cleanup[sp][tname(t)] == old(testsRegistry.cleanup[sp][tname(t)]) + 1
 //@   let snap = takeSnapshot(values)
 //@   assigns nErr[t], lastErr[t], nLog[t], lastLog[t], nCleanup[t], lastCleanup[t]
@@ -740,6 +798,10 @@ package snaps
 //@   ensures [created] len(values) > 0 && dAdd == 1 ==> true && !hit && mayCreate && fsx[sp] && fsc[sp] == (old(fsx[sp]) ? F : "") + "\n" + id + "\n" + snap + "\n---\n"
 //@   ensures [updated] len(values) > 0 && dUpd == 1 ==> true && hit && mayUpdate && stored != snap
 //@   ensures [equal_nowrite] len(values) > 0 && true && hit && stored == snap ==> nowrite
+//@   ensures [created_lookup] len(values) > 0 && dAdd == 1 && wf(Fx) && noEND(snap) ==> found(fsc[sp], id) && body(fsc[sp], id) == snap && wf(fsc[sp])
+//@   ensures [created_others] len(values) > 0 && dAdd == 1 && wf(Fx) ==> (forall id2 Str: id2 != id && id2 != "" && id2 != "---" && lacks(snap, id2) ==> found(fsc[sp], id2) == found(Fx, id2) && (found(Fx, id2) ==> body(fsc[sp], id2) == body(Fx, id2)))
+//@   ensures [updated_lookup] len(values) > 0 && dUpd == 1 && uniqueHdr(F, id) && noEND(snap) ==> updShape(F, id, snap, fsc[sp]) && found(fsc[sp], id) && body(fsc[sp], id) == snap && (wf(F) ==> wf(fsc[sp]))
+//@   ensures [updated_others] len(values) > 0 && dUpd == 1 && uniqueHdr(F, id) && wf(F) ==> (forall id2 Str: id2 != id && id2 != "---" && lacks(snap, id2) && lacks(stored, id2) ==> found(fsc[sp], id2) == found(F, id2) && (found(F, id2) && apart(F, id, id2) ==> body(fsc[sp], id2) == body(F, id2)))
 //@   ensures [locks] held[_m] == 0 && held[testsRegistry.Mutex] == 0 && held[testEvents.Mutex] == 0
 //@   ensures [config_immutable] (forall r Ref: old(alloc)[r] ==> heap(Config.filename)[r] == old(heap(Config.filename))[r] && heap(Config.snapsDir)[r] == old(heap(Config.snapsDir))[r] && heap(Config.extension)[r] == old(heap(Config.extension))[r] && heap(Config.update)[r] == old(heap(Config.update))[r] && heap(Config.json)[r] == old(heap(Config.json))[r])
 //@   ensures [config_pointees] (c.update != nil ==> *c.update == old(*c.update)) && (c.json != nil ==> c.json.Width == old(c.json.Width) && c.json.Indent == old(c.json.Indent) && c.json.SortKeys == old(c.json.SortKeys))
@@ -773,6 +835,7 @@ package snaps
 //@   let F = old(fsc[sp])
 //@   let hit = old(fsx[sp]) && found(old(fsc[sp]), id)
 //@   let stored = body(F, id)
+//@   let Fx = old(fsx[sp]) ? old(fsc[sp]) : ""
 //@   let ordinalTaken = testsRegistry.running[sp][tname(t)] == k && testsRegistry.cleanup[sp][tname(t)] == old(testsRegistry.cleanup[sp][tname(t)]) + 1
 //@   let valid = vjErrOf(input) == nil
 //@   let doc = applyJ(vjBytesOf(input), arr(matchers), len(matchers))
@@ -798,6 +861,10 @@ package snaps
 //@   ensures [created] true && dAdd == 1 ==> okIn && !hit && mayCreate && fsx[sp] && fsc[sp] == (old(fsx[sp]) ? F : "") + "\n" + id + "\n" + snap + "\n---\n"
 //@   ensures [updated] true && dUpd == 1 ==> okIn && hit && mayUpdate && stored != snap
 //@   ensures [equal_nowrite] true && okIn && hit && stored == snap ==> nowrite
+//@   ensures [created_lookup] true && dAdd == 1 && wf(Fx) && noEND(snap) ==> found(fsc[sp], id) && body(fsc[sp], id) == snap && wf(fsc[sp])
+//@   ensures [created_others] true && dAdd == 1 && wf(Fx) ==> (forall id2 Str: id2 != id && id2 != "" && id2 != "---" && lacks(snap, id2) ==> found(fsc[sp], id2) == found(Fx, id2) && (found(Fx, id2) ==> body(fsc[sp], id2) == body(Fx, id2)))
+//@   ensures [updated_lookup] true && dUpd == 1 && uniqueHdr(F, id) && noEND(snap) ==> updShape(F, id, snap, fsc[sp]) && found(fsc[sp], id) && body(fsc[sp], id) == snap && (wf(F) ==> wf(fsc[sp]))
+//@   ensures [updated_others] true && dUpd == 1 && uniqueHdr(F, id) && wf(F) ==> (forall id2 Str: id2 != id && id2 != "---" && lacks(snap, id2) && lacks(stored, id2) ==> found(fsc[sp], id2) == found(F, id2) && (found(F, id2) && apart(F, id, id2) ==> body(fsc[sp], id2) == body(F, id2)))
 //@   ensures [locks] held[_m] == 0 && held[testsRegistry.Mutex] == 0 && held[testEvents.Mutex] == 0
 //@   ensures [config_immutable] (forall r Ref: old(alloc)[r] ==> heap(Config.filename)[r] == old(heap(Config.filename))[r] && heap(Config.snapsDir)[r] == old(heap(Config.snapsDir))[r] && heap(Config.extension)[r] == old(heap(Config.extension))[r] && heap(Config.update)[r] == old(heap(Config.update))[r] && heap(Config.json)[r] == old(heap(Config.json))[r])
 //@   ensures [config_pointees] (c.update != nil ==> *c.update == old(*c.update)) && (c.json != nil ==> c.json.Width == old(c.json.Width) && c.json.Indent == old(c.json.Indent) && c.json.SortKeys == old(c.json.SortKeys))
@@ -830,6 +897,7 @@ package snaps
 //@   let F = old(fsc[sp])
 //@   let hit = old(fsx[sp]) && found(old(fsc[sp]), id)
 //@   let stored = body(F, id)
+//@   let Fx = old(fsx[sp]) ? old(fsc[sp]) : ""
 //@   let ordinalTaken = testsRegistry.running[sp][tname(t)] == k && testsRegistry.cleanup[sp][tname(t)] == old(testsRegistry.cleanup[sp][tname(t)]) + 1
 //@   let valid = vjErrOf(input) == nil
 //@   let doc = applyJ(vjBytesOf(input), arr(matchers), len(matchers))
@@ -855,6 +923,10 @@ package snaps
 //@   ensures [created] true && dAdd == 1 ==> okIn && !hit && mayCreate && fsx[sp] && fsc[sp] == (old(fsx[sp]) ? F : "") + "\n" + id + "\n" + snap + "\n---\n"
 //@   ensures [updated] true && dUpd == 1 ==> okIn && hit && mayUpdate && stored != snap
 //@   ensures [equal_nowrite] true && okIn && hit && stored == snap ==> nowrite
+//@   ensures [created_lookup] true && dAdd == 1 && wf(Fx) && noEND(snap) ==> found(fsc[sp], id) && body(fsc[sp], id) == snap && wf(fsc[sp])
+//@   ensures [created_others] true && dAdd == 1 && wf(Fx) ==> (forall id2 Str: id2 != id && id2 != "" && id2 != "---" && lacks(snap, id2) ==> found(fsc[sp], id2) == found(Fx, id2) && (found(Fx, id2) ==> body(fsc[sp], id2) == body(Fx, id2)))
+//@   ensures [updated_lookup] true && dUpd == 1 && uniqueHdr(F, id) && noEND(snap) ==> updShape(F, id, snap, fsc[sp]) && found(fsc[sp], id) && body(fsc[sp], id) == snap && (wf(F) ==> wf(fsc[sp]))
+//@   ensures [updated_others] true && dUpd == 1 && uniqueHdr(F, id) && wf(F) ==> (forall id2 Str: id2 != id && id2 != "---" && lacks(snap, id2) && lacks(stored, id2) ==> found(fsc[sp], id2) == found(F, id2) && (found(F, id2) && apart(F, id, id2) ==> body(fsc[sp], id2) == body(F, id2)))
 //@   ensures [locks] held[_m] == 0 && held[testsRegistry.Mutex] == 0 && held[testEvents.Mutex] == 0
 //@   ensures [config_immutable] (forall r Ref: old(alloc)[r] ==> heap(Config.filename)[r] == old(heap(Config.filename))[r] && heap(Config.snapsDir)[r] == old(heap(Config.snapsDir))[r] && heap(Config.extension)[r] == old(heap(Config.extension))[r] && heap(Config.update)[r] == old(heap(Config.update))[r] && heap(Config.json)[r] == old(heap(Config.json))[r])
 //@   ensures [config_pointees] (c.update != nil ==> *c.update == old(*c.update)) && (c.json != nil ==> c.json.Width == old(c.json.Width) && c.json.Indent == old(c.json.Indent) && c.json.SortKeys == old(c.json.SortKeys))
@@ -888,6 +960,7 @@ package snaps
 //@   let F = old(fsc[sp])
 //@   let hit = old(fsx[sp]) && found(old(fsc[sp]), id)
 //@   let stored = body(F, id)
+//@   let Fx = old(fsx[sp]) ? old(fsc[sp]) : ""
 //@   let ordinalTaken = testsRegistry.running[sp][tname(t)] == k && testsRegistry.cleanup[sp][tname(t)] == old(testsRegistry.cleanup[sp][tname(t)]) + 1
 //@   let valid = vyOK(input)
 //@   let doc = applyY(vyBytesOf(input), arr(matchers), len(matchers))
@@ -913,6 +986,10 @@ package snaps
 //@   ensures [created] true && dAdd == 1 ==> okIn && !hit && mayCreate && fsx[sp] && fsc[sp] == (old(fsx[sp]) ? F : "") + "\n" + id + "\n" + snap + "\n---\n"
 //@   ensures [updated] true && dUpd == 1 ==> okIn && hit && mayUpdate && stored != snap
 //@   ensures [equal_nowrite] true && okIn && hit && stored == snap ==> nowrite
+//@   ensures [created_lookup] true && dAdd == 1 && wf(Fx) && noEND(snap) ==> found(fsc[sp], id) && body(fsc[sp], id) == snap && wf(fsc[sp])
+//@   ensures [created_others] true && dAdd == 1 && wf(Fx) ==> (forall id2 Str: id2 != id && id2 != "" && id2 != "---" && lacks(snap, id2) ==> found(fsc[sp], id2) == found(Fx, id2) && (found(Fx, id2) ==> body(fsc[sp], id2) == body(Fx, id2)))
+//@   ensures [updated_lookup] true && dUpd == 1 && uniqueHdr(F, id) && noEND(snap) ==> updShape(F, id, snap, fsc[sp]) && found(fsc[sp], id) && body(fsc[sp], id) == snap && (wf(F) ==> wf(fsc[sp]))
+//@   ensures [updated_others] true && dUpd == 1 && uniqueHdr(F, id) && wf(F) ==> (forall id2 Str: id2 != id && id2 != "---" && lacks(snap, id2) && lacks(stored, id2) ==> found(fsc[sp], id2) == found(F, id2) && (found(F, id2) && apart(F, id, id2) ==> body(fsc[sp], id2) == body(F, id2)))
 //@   ensures [locks] held[_m] == 0 && held[testsRegistry.Mutex] == 0 && held[testEvents.Mutex] == 0
 //@   ensures [config_immutable] (forall r Ref: old(alloc)[r] ==> heap(Config.filename)[r] == old(heap(Config.filename))[r] && heap(Config.snapsDir)[r] == old(heap(Config.snapsDir))[r] && heap(Config.extension)[r] == old(heap(Config.extension))[r] && heap(Config.update)[r] == old(heap(Config.update))[r] && heap(Config.json)[r] == old(heap(Config.json))[r])
 //@   ensures [config_pointees] (c.update != nil ==> *c.update == old(*c.update)) && (c.json != nil ==> c.json.Width == old(c.json.Width) && c.json.Indent == old(c.json.Indent) && c.json.SortKeys == old(c.json.SortKeys))
@@ -945,6 +1022,7 @@ package snaps
 //@   let F = old(fsc[sp])
 //@   let hit = old(fsx[sp]) && found(old(fsc[sp]), id)
 //@   let stored = body(F, id)
+//@   let Fx = old(fsx[sp]) ? old(fsc[sp]) : ""
 //@   let ordinalTaken = testsRegistry.running[sp][tname(t)] == k && testsRegistry.cleanup[sp][tname(t)] == old(testsRegistry.cleanup[sp][tname(t)]) + 1
 //@   let valid = vyOK(input)
 //@   let doc = applyY(vyBytesOf(input), arr(matchers), len(matchers))
@@ -970,6 +1048,10 @@ package snaps
 //@   ensures [created] true && dAdd == 1 ==> okIn && !hit && mayCreate && fsx[sp] && fsc[sp] == (old(fsx[sp]) ? F : "") + "\n" + id + "\n" + snap + "\n---\n"
 //@   ensures [updated] true && dUpd == 1 ==> okIn && hit && mayUpdate && stored != snap
 //@   ensures [equal_nowrite] true && okIn && hit && stored == snap ==> nowrite
+//@   ensures [created_lookup] true && dAdd == 1 && wf(Fx) && noEND(snap) ==> found(fsc[sp], id) && body(fsc[sp], id) == snap && wf(fsc[sp])
+//@   ensures [created_others] true && dAdd == 1 && wf(Fx) ==> (forall id2 Str: id2 != id && id2 != "" && id2 != "---" && lacks(snap, id2) ==> found(fsc[sp], id2) == found(Fx, id2) && (found(Fx, id2) ==> body(fsc[sp], id2) == body(Fx, id2)))
+//@   ensures [updated_lookup] true && dUpd == 1 && uniqueHdr(F, id) && noEND(snap) ==> updShape(F, id, snap, fsc[sp]) && found(fsc[sp], id) && body(fsc[sp], id) == snap && (wf(F) ==> wf(fsc[sp]))
+//@   ensures [updated_others] true && dUpd == 1 && uniqueHdr(F, id) && wf(F) ==> (forall id2 Str: id2 != id && id2 != "---" && lacks(snap, id2) && lacks(stored, id2) ==> found(fsc[sp], id2) == found(F, id2) && (found(F, id2) && apart(F, id, id2) ==> body(fsc[sp], id2) == body(F, id2)))
 //@   ensures [locks] held[_m] == 0 && held[testsRegistry.Mutex] == 0 && held[testEvents.Mutex] == 0
 //@   ensures [config_immutable] (forall r Ref: old(alloc)[r] ==> heap(Config.filename)[r] == old(heap(Config.filename))[r] && heap(Config.snapsDir)[r] == old(heap(Config.snapsDir))[r] && heap(Config.extension)[r] == old(heap(Config.extension))[r] && heap(Config.update)[r] == old(heap(Config.update))[r] && heap(Config.json)[r] == old(heap(Config.json))[r])
 //@   ensures [config_pointees] (c.update != nil ==> *c.update == old(*c.update)) && (c.json != nil ==> c.json.Width == old(c.json.Width) && c.json.Indent == old(c.json.Indent) && c.json.SortKeys == old(c.json.SortKeys))
